@@ -172,6 +172,8 @@ ALWAYS_INLINE = {
     f"{P}.helpers.unit_weights", f"{P}.helpers.unit_weight",
     "openfisca_core.tracers.simple_tracer.SimpleTracer.stack", "openfisca_core.tracers.full_tracer.FullTracer.stack",
     "openfisca_core.tracers.full_tracer.FullTracer.trees",
+    "openfisca_core.populations.group_population.GroupPopulation.members_entity_id",
+    "openfisca_core.populations.group_population.GroupPopulation.members_role",
 }
 
 
